@@ -205,7 +205,7 @@ var (
 		{"reference-splits-list-after-empty-item", "\n", regexp.MustCompile(`(?:^|[ >\n])(?:[-+*]|[0-9]{1,9}[.)]) *\n[ >]*\n[ >]*\n`)},
 		// spec: a block quote marker may be preceded by at most three spaces;
 		// the reference accepts any indentation on continuation lines.
-		{"reference-indented-quote-marker", "    ", regexp.MustCompile(`(?:^|\n) {4,}>`)},
+		{"reference-indented-quote-marker", "    ", regexp.MustCompile(`(?:^|\n)(?: {0,3}> ?)* {4,}>`)},
 		// The plain-text rendering of a hard line break inside an image
 		// description is not specified (cmark: space, commonmark.js: newline,
 		// the reference: nothing); the reference also drops backslash escapes,
@@ -217,6 +217,13 @@ var (
 		// it in the paragraph; the reference parses an image description on its
 		// own, so a run next to the brackets sees "end of text" instead.
 		{"reference-parses-image-description-in-isolation", "![", regexp.MustCompile(`!\[[*_]|!\[[^\]]*[*_]\]`)},
+		// ... and it parses link text up to the closing bracket only, so a run
+		// right before "]" sees "end of text" after it.
+		{"reference-parses-link-text-in-isolation", "]", regexp.MustCompile(`[*_]\]`)},
+		// spec: HTML blocks of kinds 1-5 end at their end condition or with their
+		// container; the reference also ends them at a blank line inside a list
+		// item when that line is shorter than the item's indentation.
+		{"reference-ends-html-block-at-blank-line-in-list-item", "<", regexp.MustCompile(`(?s)(?:[-+*]|[0-9][.)])[ \n].*<(?:!--|\?|pre|!\[CDATA\[|![A-Z]).*\n *\n`)},
 		// spec: links may not contain other links at any depth; the reference
 		// accepts a link around an image whose description contains a link.
 		{"reference-link-in-image-in-link", "![", regexp.MustCompile(`(?s)\[.*!\[.*\[`)},
@@ -259,6 +266,9 @@ func c35NotJudged(doc string, ref c35Ref) string {
 			return d.why
 		}
 	}
+	if c35LazyIndentedDeviation(doc) {
+		return "reference-treats-indented-lazy-line-as-block-start"
+	}
 	// spec: a comment is "<!--", a string not including "-->", and "-->"; the
 	// reference's pattern additionally refuses a body that ends in "-"
 	// (e.g. "<!--<!---->", which cmark also reads as one comment).
@@ -273,6 +283,82 @@ func c35NotJudged(doc string, ref c35Ref) string {
 		}
 	}
 	return ""
+}
+
+// c35LazyIndentedDeviation recognises a lazy continuation line that is
+// indented by four or more spaces and whose text looks like a block start
+// ("    # ", "    *", "    ```", ...). By the spec such a line is paragraph
+// continuation text (an indented code block cannot interrupt a paragraph, and
+// with four spaces it is no other block start either). The reference evaluates
+// its paragraph terminators with an indentation relative to the inner
+// container, takes the line for a block start and closes the containers; it
+// gets only the case of a single block quote right.
+func c35LazyIndentedDeviation(doc string) bool {
+	if !strings.Contains(doc, "\n    ") {
+		return false
+	}
+	lines := strings.Split(doc, "\n")
+	for i := 1; i < len(lines); i++ {
+		cur := lines[i]
+		ind := len(cur) - len(strings.TrimLeft(cur, " "))
+		if ind < 4 || ind == len(cur) || !strings.ContainsRune("-*+0123456789#`~><_=", rune(cur[ind])) {
+			continue
+		}
+		prev := lines[i-1]
+		if strings.TrimSpace(prev) == "" {
+			continue
+		}
+		nbq, nlist, listOffset := 0, 0, 0
+		pos := 0
+		for {
+			sp := 0
+			for pos+sp < len(prev) && prev[pos+sp] == ' ' && sp < 4 {
+				sp++
+			}
+			if sp == 4 || pos+sp >= len(prev) {
+				break
+			}
+			q := pos + sp
+			if prev[q] == '>' {
+				nbq++
+				pos = q + 1
+				if pos < len(prev) && prev[pos] == ' ' {
+					pos++
+				}
+				continue
+			}
+			m := q
+			if strings.IndexByte("-+*", prev[m]) >= 0 {
+				m++
+			} else {
+				for m < len(prev) && m-q < 9 && prev[m] >= '0' && prev[m] <= '9' {
+					m++
+				}
+				if m == q || m >= len(prev) || (prev[m] != '.' && prev[m] != ')') {
+					break
+				}
+				m++
+			}
+			n := 0
+			for m+n < len(prev) && prev[m+n] == ' ' {
+				n++
+			}
+			if n == 0 && m < len(prev) {
+				break
+			}
+			if n > 4 || n == 0 {
+				n = 1
+			}
+			nlist++
+			pos = m + n
+			listOffset = pos
+		}
+		lazy := nbq > 0 || (nlist > 0 && ind < listOffset)
+		if lazy && !(nbq == 1 && nlist == 0) {
+			return true
+		}
+	}
+	return false
 }
 
 func c35CharRefNotJudged(doc string) string {
